@@ -1,8 +1,95 @@
+/-
+  driver_metrics — JSON handlers around Demeter.Metrics (C20) and Demeter.Manager (C19).
+  Oracles: `pow` and `sqrt` are evaluated with Lean `Float` (libm `pow`, IEEE `sqrt`) on the nearest doubles
+  of the exact rational arguments; a nan/inf answer is `none`.
+-/
 import Demeter.Drv.Json
+import Demeter.Metrics
 namespace Demeter.Drv
-open Demeter Lean
+open Demeter Demeter.Metrics Lean
+
+def metricsOrc : Orc where
+  pow b e := floatToRat? (Float.pow (ratToFloat b) (ratToFloat e))
+  sqrt x := floatToRat? (Float.sqrt (ratToFloat x))
+
+def jRatList (j : Json) (k : String) : Except String (List Rat) := do
+  let a ← jArr j k
+  a.toList.mapM jRatOf
+
+def jRatListOpt (j : Json) (k : String) : Except String (Option (List Rat)) :=
+  match jOpt j k with
+  | none => pure none
+  | some (.arr a) => do pure (some (← a.toList.mapM jRatOf))
+  | some v => throw s!"field {k}: expected array, got {v.compress}"
+
+def jRatOpt (j : Json) (k : String) : Except String (Option Rat) :=
+  match jOpt j k with
+  | none => pure none
+  | some v => do pure (some (← jRatOf v))
+
+/-- a result for a 1e-9 comparison: rationals with more than ~600 bits are rounded to 60 significant digits
+    (sums over quotients of doubles have denominators of 10^5 bits) -/
+def bigJ (r : Rat) : Json :=
+  if r.den.log2 > 600 || r.num.natAbs.log2 > 1200 then ratJ (roundSig 60 r) else ratJ r
+
+def resJ (r : R Rat) : Json :=
+  match r with
+  | .ok v => Json.mkObj [("outcome", .str "ok"), ("value", bigJ v)]
+  | .error e => Json.mkObj [("outcome", .str e.name)]
+
+def valJ (v : Val) : Json :=
+  match v with
+  | some x => bigJ x
+  | none => .str "nonfinite"
+
+def listJ (l : List Rat) : Json := .arr (l.map bigJ).toArray
 
 def metricsHandlers : List (String × Handler) := []
-def metricsJHandlers : List (String × JHandler) := []
+
+def metricsJHandlers : List (String × JHandler) := [
+  ("mdd", fun j => do
+    let xs ← jRatList j "xs"
+    let s := withdrawHighLow xs
+    pure (Json.mkObj [("code", resJ (maxDrawDown xs)), ("high", natJ s.gHigh), ("low", natJ s.gLow), ("g", ratJ s.g),
+      ("spec", ratJ (mddSpec xs)), ("peak", ratJ (match xs with | [] => 0 | x :: _ => mddPeak x xs)),
+      ("old", resJ (maxDrawDownOld xs))])),
+  ("returns", fun j => do
+    let xs ← jRatList j "xs"
+    pure (Json.mkObj [("multiple", listJ (returnMultiple xs)), ("rates", listJ (returnRateSeries xs)),
+      ("prodMultiple", ratJ (prod (returnMultiple xs))),
+      ("prodRates", ratJ (prod ((returnRateSeries xs).map (· + 1))))])),
+  ("returnRate", fun j => do
+    let i ← jRat j "init"; let f ← jRat j "final"
+    pure (Json.mkObj [("rate", resJ (returnRate i f)), ("value", ratJ (returnValue i f))])),
+  ("annualized", fun j => do
+    let it ← jStr j "interest"
+    let it := if it == "single" then Interest.single else if it == "compound" then Interest.compound else Interest.other
+    let d ← jRat j "d"
+    let a : AnnArgs := { init := ← jRatOpt j "init", final := ← jRatOpt j "final",
+                         rates := ← jRatListOpt j "rates", nets := ← jRatListOpt j "nets" }
+    pure (resJ (annualizedReturn metricsOrc it d a))),
+  ("volatility", fun j => do
+    let rs ← jRatList j "returns"; let iv ← jRat j "interval"
+    pure (Json.mkObj [("vol", resJ (volatility metricsOrc rs iv)), ("var", resJ (sampleVar rs))])),
+  ("sharpe", fun j => do
+    let xs ← jRatList j "values"; let iv ← jRat j "interval"; let d ← jRat j "duration"; let rf ← jRat j "rf"
+    pure (resJ (sharpeRatio metricsOrc iv d xs rf))),
+  ("alphabeta", fun j => do
+    let xs ← jRatList j "values"; let bs ← jRatList j "bench"; let d ← jRat j "duration"
+    match alphaBeta metricsOrc xs bs d with
+    | .ok (a, b) => pure (Json.mkObj [("outcome", .str "ok"), ("alpha", bigJ a), ("beta", bigJ b)])
+    | .error e => pure (Json.mkObj [("outcome", .str e.name)])),
+  ("perf", fun j => do
+    let xs ← jRatList j "values"; let rf ← jRat j "rf"
+    let t0 ← jInt j "t0"; let t1 ← jInt j "t1"; let te ← jInt j "tEnd"
+    let bench ← jRatListOpt j "bench"
+    match performanceMetrics metricsOrc t0 t1 te xs rf bench with
+    | .error e => pure (Json.mkObj [("outcome", .str e.name)])
+    | .ok p => pure (Json.mkObj [("outcome", .str "ok"), ("startVal", ratJ p.startVal), ("endVal", ratJ p.endVal),
+        ("intervalInDay", ratJ p.intervalInDay), ("durationInDay", ratJ p.durationInDay),
+        ("returnValue", ratJ p.returnValue), ("returnRate", valJ p.returnRate), ("annualized", valJ p.annualized),
+        ("mdd", valJ p.mdd), ("sharpe", valJ p.sharpe), ("volatility", valJ p.volatility),
+        ("alpha", valJ p.alpha), ("beta", valJ p.beta), ("benchRate", valJ p.benchRate), ("benchApr", valJ p.benchApr)]))
+]
 
 end Demeter.Drv
